@@ -37,10 +37,6 @@ pub fn fnv(s: &str) -> u64 {
     h
 }
 
-pub fn obj(v: &J) -> &Map<String, J> {
-    v.as_object().expect("object")
-}
-
 /// Build a disclosure string from a JSON value (normally [salt, name, value] or [salt, value]).
 pub fn make_disclosure(v: &J) -> String {
     b64e(serde_json::to_string(v).unwrap().as_bytes())
